@@ -83,7 +83,7 @@ func checkC09(c *Ctx) {
 	r.Rule("R09.2", "stored keys are private copies (every Write)", 3)
 	r.Rule("R09.3", "hash lookups are confirmed by the full key before the entry is used or deleted", 4)
 	r.Rule("R09.5", "label invalidation de-duplicates by the key itself, not by a digest of it", 1)
-	r.Rule("R09.4", "Failover's per-key build locks are keyed by string(key) (not by a hash: colliding keys must not share a build)", 1)
+	r.Rule("R09.4", "Failover's per-key build locks are keyed by string(key) (not by a hash: colliding keys must not share a build)", 2)
 	r.NotDecided = []string{"xxhash collisions themselves", "user backends / loggers keeping the slice"}
 	c.c09Retention()
 	for _, b := range backends {
@@ -93,24 +93,14 @@ func checkC09(c *Ctx) {
 		}
 	}
 	// R09.5: label invalidation remembers processed keys by the key itself (a digest would let a colliding key's entry survive)
-	c.borrow("C15", func() { c.c15Protocol() }, func(o *coreObl) (string, bool) {
-		return "R09.5", o.Rule == "R15.3" && (o.Status == "discharged" || o.What == "dedup-key")
-	})
+	c.borrowKinds("C15", func() { c.c15Protocol() }, "R09.5", "InvalidationIndex.invalidateByLabels", []string{"R15.3"}, "dedup-key")
 	// R09.4: the per-key build locks of the Failover frontends are keyed by the full key, not by a hash of it
 	for _, sib := range siblings {
 		fo := c.failover(sib)
 		if fo.Err != nil {
 			continue
 		}
-		c.borrow("C01", func() { c.c01Sibling(fo) }, func(o *coreObl) (string, bool) {
-			if o.Rule == "R01.2" && (o.Status == "discharged" || strings.HasSuffix(o.What, "-key")) {
-				return "R09.4", true
-			}
-			if o.Rule == "R01.5" && o.Status != "discharged" && strings.HasSuffix(o.What, "release-key") {
-				return "R09.4", true
-			}
-			return "", false
-		})
+		c.borrowKinds("C01", func() { c.c01Sibling(fo) }, "R09.4", sib+".Get", []string{"R01.2", "R01.5"}, "insert-key", "lookup-key", "release-key")
 	}
 }
 
